@@ -25,6 +25,7 @@ type Config struct {
 	Required    int     `json:"required"`
 	Table       string  `json:"table"`   // "standard" | "short"
 	Amounts     string  `json:"amounts"` // "all" (every integer in range) | "classes" (threshold representatives)
+	BurnZero    bool    `json:"burn_count_zero,omitempty"` // options carry BurnCount 0 (e.g. built from a bare literal / JSON without the field)
 }
 
 func (c *Config) Seats() int { return len(c.Bankroll) }
@@ -92,6 +93,9 @@ func (c *Config) Options() *pf.GameOptions {
 	o.RequiredHoleCardsCount = c.Required
 	o.CombinationPowers = c.rankings()
 	o.Deck = BuildDeck(c)
+	if c.BurnZero {
+		o.BurnCount = 0
+	}
 	pos := c.Positions()
 	for i, b := range c.Bankroll {
 		o.Players = append(o.Players, &pf.PlayerSetting{Bankroll: b, Positions: append([]string{}, pos[i]...)})
